@@ -201,7 +201,7 @@ def run_history(kind, hist):
 
 SEED_SCRIPT = r'''
 import sys, json
-sys.path.insert(0, %r); sys.path.insert(0, '/repo')
+sys.path.insert(0, %r); sys.path.insert(0, __import__('os').environ.get('VERIF_REPO', '/repo'))
 from checks import history
 out = {}
 for kind in ('symtable', 'json', 'pysnmp', 'compiler'):
